@@ -23,9 +23,9 @@ inductive Op where
   | draw (k : Nat)
 
 /-- `Covercrypt::setup`: `primitives::setup`, then `update_msk` with the rights of the empty structure -/
-def World.init (n : Rng) : World :=
-  ⟨(updateMsk (setup n).1 (setup n).1.structure_.omega (setup n).2).2.1,
-   (updateMsk (setup n).1 (setup n).1.structure_.omega (setup n).2).2.2⟩
+def World.init (n : Rng) (k : Nat) : World :=
+  ⟨(updateMsk (setup n k).1 (setup n k).1.structure_.omega (setup n k).2).2.1,
+   (updateMsk (setup n k).1 (setup n k).1.structure_.omega (setup n k).2).2.2⟩
 
 def World.step (w : World) : Op → World
   | .edit e =>
@@ -50,7 +50,8 @@ def World.step (w : World) : Op → World
     ⟨(refresh w.msk usk keep w.rng).2.1, (refresh w.msk usk keep w.rng).2.2.2⟩
   | .draw k => { w with rng := w.rng + k }
 
-/-- the worlds reachable from `setup` by any sequence of operations with any arguments -/
-def Reachable (w : World) : Prop := ∃ (n : Rng) (ops : List Op), w = ops.foldl World.step (World.init n)
+/-- the worlds reachable from `setup` — at any tracing level — by any sequence of operations with
+any arguments -/
+def Reachable (w : World) : Prop := ∃ (n : Rng) (k : Nat) (ops : List Op), w = ops.foldl World.step (World.init n k)
 
 end CC
